@@ -71,7 +71,9 @@ def run_case(case):
         how = case.get("open", "w")
         first = 0
         if how == "a-existing":              # an earlier session (same password, same chain) wrote the first member
-            z0 = py7zr.SevenZipFile(bio, "w", filters=filters, password=pw, **kw)
+            z0 = py7zr.SevenZipFile(bio, "w", filters=filters, password=pw, **({} if case.get("base_sets") else kw))
+            for which, m in case.get("base_sets", []):       # ... possibly with another header form (raw, encoded, encrypted)
+                (z0.set_encrypted_header if which == "encrypted" else z0.set_encoded_header_mode)(m)
             z0.writestr(members[0][1], members[0][0])
             z0.close()
             bio.seek(0)
@@ -184,7 +186,7 @@ def run(tier, rep, ev):
         rep.note_drift(f"Crypto model violates {r.violated}")
     chains = [["AES"], ["Copy", "AES"], ["LZMA2", "AES"], ["LZMA", "AES"], ["BZip2", "AES"], ["Deflate", "AES"], ["ZStd", "AES"], ["Brotli", "AES"],
               ["X86", "LZMA2", "AES"], ["Delta", "LZMA2", "AES"], ["ARM", "BZip2", "AES"], None]
-    passwords = ["secret", "", "pä ß", "\U0001F511\U0001F600", "a" * 40, "Ключ"]
+    passwords = ["secret", "", "pä ß", "\U0001F511\U0001F600", "a" * 40, "Ключ", "a\u0308 not composed", "\u1100\u1161\u11a8"]      # incl. strings that are not in NFC
     setseqs = [[]] + [[(w, m)] for w in ("encrypted", "encoded") for m in (True, False)] + \
               [[(w1, m1), (w2, m2)] for w1 in ("encrypted", "encoded") for m1 in (True, False) for w2 in ("encrypted", "encoded") for m2 in (True, False)]
     cases = []
@@ -207,6 +209,13 @@ def run(tier, rep, ev):
         for hi, how in enumerate(("w", "a-fresh", "a-existing")):
             k += 1
             cases.append({"chain": None, "password": p, "hdrenc_ctor": bool((pi + hi) % 2), "sets": [], "seed": k, "nmembers": 2 + k % 2, "open": how})
+    # append sessions on a base whose header has another form: the session's own configuration decides what is written
+    for bs in ([("encoded", False)], [("encrypted", True)], [("encoded", True)]):
+        for ctor in (True, False):
+            for ss in ([], [("encrypted", True)], [("encoded", False)]):
+                k += 1
+                cases.append({"chain": [None, ["LZMA2", "AES"], ["Copy", "AES"]][k % 3], "password": passwords[k % len(passwords)] or "pw", "hdrenc_ctor": ctor,
+                              "sets": ss, "seed": k, "nmembers": 2, "open": "a-existing", "base_sets": bs})
     for vol in (None, "1k", "3000", "1m"):
         k += 1
         cases.append({"chain": None, "password": ["secret", "pä ß", "Ключ", "a" * 40][k % 4], "hdrenc_ctor": False, "sets": [], "seed": k, "nmembers": 3, "via": "cli", "vol": vol})
